@@ -94,6 +94,7 @@ def check(out: Outcome, p: dict, xs: list, runners: list, label: str = "") -> No
     hist = []
     shrunk = 0
     mag = max([1.0] + [abs(v) for v in xs])
+    ab = corr.AdwinBudget()
     for t, x in enumerate(xs, 1):
         before = int(d.width)
         pre = copy.deepcopy(d)
@@ -113,10 +114,15 @@ def check(out: Outcome, p: dict, xs: list, runners: list, label: str = "") -> No
         if not (0 < w <= len(hist)):
             out.violation(f"ADWIN: width {w} is not a suffix length after {t} updates", rep)
             break
-        if abs(float(d.total) - math.fsum(win)) > 1e-9 * mag * max(1, w):
+        # the total is judged against the rounding error the algorithm can have accumulated (half an ulp per operation at the magnitude the sum had THEN), not against
+        # 1e-9 of the largest value of the whole stream: after the level has dropped by many orders of magnitude the window's sum must still be right
+        tol_total = ab.step(x, w) + 1e-300
+        if abs(float(d.total) - math.fsum(win)) > tol_total:
             out.violation(f"ADWIN: total {float(d.total)!r} is not the sum of the last {w} values ({math.fsum(win)!r}) at step {t}", rep)
             break
-        if abs(float(d.variance) - ssd(win)) > 1e-6 * mag * mag * max(1, w):
+        # (variance: the looser of the classical tolerance relative to what the window holds now and eight times the accumulated rounding budget)
+        wm = max([abs(float(v)) for v in win] + [0.0])
+        if abs(float(d.variance) - ssd(win)) > max(1e-6 * wm * wm * max(1, w), 8.0 * ab.budget_var * 1e3) + 1e-300:
             out.violation(f"ADWIN: variance {float(d.variance)!r} is not the sum of squared deviations of the last {w} values ({ssd(win)!r}) at step {t}", rep)
             break
         bl = blocks_of(d)
@@ -144,9 +150,12 @@ def check(out: Outcome, p: dict, xs: list, runners: list, label: str = "") -> No
                 out.violation(f"ADWIN: window cut from {before + 1} to {w} values at step {t} although no check is due", rep)
                 break
             try:        # uses two private helpers of the detector; if a refactor removes them this clause is skipped, not failed
-                pre._insert_bucket(value=x)
+                try:
+                    pre._insert_bucket(value=x)
+                except TypeError:           # the private helper's parameter has another name
+                    pre._insert_bucket(x)
                 justified = exceeds_any_boundary_split(pre)
-            except AttributeError:
+            except (AttributeError, TypeError):
                 justified = True
                 out.count("shrink_justification_skipped_private_api_missing")
             if not justified:
@@ -254,6 +263,14 @@ def run(out: Outcome) -> None:
         hi = 1 if dt in (np.bool_, bool) else (100 if dt is np.int8 else 250)
         xs = [dt(rng.randint(0, hi)) for _ in range(120 if thorough else 60)]
         check(out, p, xs, runners)
+    # dynamic range INSIDE one stream: a regime of large values (a sensor at 101 325 Pa, counts of bytes) followed by a small NON-ZERO regime, ratio 1e6 .. 1e12 - after
+    # the cut the window holds only small values and its sum and variance must be theirs
+    for _ in range(6 if thorough else 3):
+        big, small = rng.choice([1e5, 1e8, 1e11]), rng.choice([1e-6, 1e-3, 1.0])
+        p = rng.choice([{}, {"clock": 1, "delta": 0.002, "m": 5, "min_window_size": 5, "min_num_instances": 10}, {"clock": 4, "delta": 0.05, "m": 3, "min_window_size": 2, "min_num_instances": 5}])
+        xs = [abs(rng.gauss(big, big * 1e-3)) for _ in range(rng.randint(60, 400))] + [abs(rng.gauss(small, small * 0.2)) for _ in range(rng.randint(150, 500))]
+        check(out, p, xs, runners)
+        out.count("regime_change_streams")
     # m = 1: rows are emptied by every merge, deletions must skip the emptied rows
     for i in range(20 if thorough else 8):
         p = {"clock": 1, "delta": rng.choice([0.3, 0.8]), "m": 1, "min_window_size": rng.choice([1, 2]), "min_num_instances": rng.choice([1, 3, 5])}
